@@ -967,10 +967,12 @@ def run(ctx):
         reg_case(env, c)
     cases = corpus + build_cases(env, gen, ctx)
     CH = 1500
+    n_rnd = ctx.scale(1800, 60000)
+    n_sys = len(cases) - n_rnd           # corpus + systematic enumerators: always run (they guarantee the floors)
     for i in range(0, len(cases), CH):
-        if time.time() > budget_end:
+        if i >= n_sys and time.time() > budget_end:
             break
-        n, dis, viol = run_cases(ctx, env, cases[i:i + CH], cov, seen, budget_end)
+        n, dis, viol = run_cases(ctx, env, cases[i:i + CH], cov, seen, budget_end if i >= n_sys else float("inf"))
         total += n
         dis_all += dis
         viol_all += viol
